@@ -169,9 +169,9 @@ class VariantL(U.Variant):
     indefinite (a primitive last TLV) stays definite.  bad: (level, delta) — the definite length of that level is
     written off by delta (an INVALID encoding).  pads: long-form padding per level of the focus chain."""
 
-    def __init__(self, rng, indef, longp, segp, focus=None, mask=None, bad=None, pads=None):
+    def __init__(self, rng, indef, longp, segp, focus=None, mask=None, bad=None, pads=None, wrong=None):
         U.Variant.__init__(self, rng, indef, longp, segp)
-        self.focus, self.mask, self.bad, self.pads = focus, mask, bad, pads
+        self.focus, self.mask, self.bad, self.pads, self.wrong = focus, mask, bad, pads, wrong
         self.counter = 0
         self.info = []          # per chain (index order): (levels, last can be indefinite)
         self.mixed = False
@@ -227,6 +227,9 @@ class VariantL(U.Variant):
             tagoct = nd.tag
             if nd is last and seg:
                 tagoct = bytes([tagoct[0] | 0x20]) + tagoct[1:]
+            if focus and self.wrong == i:
+                tagoct = tagoct[:-1] + bytes([tagoct[-1] ^ 1])          # another tag number (INVALID for this type)
+                self.applied = True
             if forms[i]:
                 h = tagoct + b"\x80"
                 total = h + total + b"\0\0"
@@ -277,7 +280,7 @@ def level_variants(tree, der, rng, quick):
         if not v.applied or bs in seen:
             return
         seen.add(bs)
-        out.append((label, bs, v, {"mixed": v.mixed, "invalid": v.bad is not None}))
+        out.append((label, bs, v, {"mixed": v.mixed, "invalid": v.bad is not None or v.wrong is not None}))
     multi = [i for i, (L, ci) in enumerate(info) if L >= 2]
     if not quick or len(multi) <= 4:
         pick = multi
@@ -303,6 +306,12 @@ def level_variants(tree, der, rng, quick):
         for lv in range(L):
             for d in (-1, 1):
                 add("bl%d:%d:%+d" % (idx, lv, d), VariantL(_NoRng(), 0, 0, 0, focus=idx, mask=(False,) * L, bad=(lv, d)))
+        # a tag the type does not have at an inner level (the outermost one is the container's business), both forms
+        for lv in range(1, L):
+            for ind in (False, True):
+                if ind and not ci:
+                    continue
+                add("xt%d:%d:%s" % (idx, lv, "i" if ind else "d"), VariantL(_NoRng(), 0, 0, 0, focus=idx, mask=(ind,) * L, wrong=lv))
     return out
 
 
